@@ -169,17 +169,21 @@ func StaticWorker(p *Prop, tier string, shard, n int, journalPath string, resume
 			sum.Counters[name] += c
 		}
 		for _, f := range r.Failures {
+			fspec := spec
+			if f.Spec != "" {
+				fspec = f.Spec
+			}
 			a := sigs[f.Sig]
 			if a == nil {
 				a = &SigAgg{Sig: f.Sig, Detail: f.Detail, First: sum.Enumerated}
 				sigs[f.Sig] = a
 				// stream the first occurrence so a later crash does not lose it
-				_ = enc.Encode(map[string]any{"t": "fail", "sig": f.Sig, "spec": spec, "detail": f.Detail, "first": sum.Enumerated})
+				_ = enc.Encode(map[string]any{"t": "fail", "sig": f.Sig, "spec": fspec, "detail": f.Detail, "first": sum.Enumerated})
 				out.Flush()
 			}
 			a.Count++
 			if len(a.Specs) < maxSpecsSig {
-				a.Specs = append(a.Specs, spec)
+				a.Specs = append(a.Specs, fspec)
 			}
 		}
 	})
